@@ -1134,7 +1134,17 @@ def evaluate__path(self: XPathFunction, context: ta.ContextType = None) -> ta.On
 
     if not isinstance(item, XPathNode):
         return []
-    elif not isinstance(root_node := item.root_node, (DocumentNode, SchemaElementNode)):
+
+    if context.is_rooted_subtree():
+        # In a rooted subtree fn:root() is the context root: for its nodes the path starts there
+        node: Any = item
+        while node is not None and node is not context.root:
+            node = node.parent
+        if node is not None:
+            path = item.path[len(context.root.path):]
+            return f"Q{{{XPATH_FUNCTIONS_NAMESPACE}}}root(){path}"
+
+    if not isinstance(root_node := item.root_node, (DocumentNode, SchemaElementNode)):
         # It's a fragment: add fn:root() to select the root position
         path = item.path[len(root_node.path):]
         return f"Q{{{XPATH_FUNCTIONS_NAMESPACE}}}root(){path}"
